@@ -5,6 +5,7 @@
 From Coq Require Import List QArith Reals Qreals Lia Lra Arith Bool NArith Permutation.
 From NV Require Import Scalar.Ops Model.Common Model.Knots Model.LinAlg
   Proofs.LinAlgSums Proofs.LinAlgR Proofs.LinAlgSolve Proofs.LinAlgPivot Proofs.LinAlgDet Proofs.LinAlgHist Transfer.LinAlgT.
+From NV Require Import Proofs.LinAlgSDD Proofs.LinAlgDetGen Transfer.LinAlgT Transfer.LinAlgSDDT.
 Import ListNotations.
 
 (* ------------------------------------------------------------------ helpers equal their definitions *)
@@ -264,3 +265,70 @@ Example C16_history_nontrivial :
   run_seq (step_fixed Qops) [] [OpPivot exB; OpInverse exA; OpDet exB] = map (fresh Qops) [OpPivot exB; OpInverse exA; OpDet exB] /\
   nth 2 (run_seq (step_fixed Qops) [] [OpPivot exB; OpInverse exA; OpDet exB]) Crash = Ok [[[(-5)%Q]]].
 Proof. split; vm_compute; reflexivity. Qed.
+
+(* ====================== round 2 (Proofs/LinAlgSDD.v, LinAlgDetGen.v, Transfer/LinAlgSDDT.v): LU exists for strictly diagonally dominant matrices;
+   determinant = Leibniz for every size ====================== *)
+(* [G] every size: a strictly diagonally dominant matrix has only non-zero Doolittle pivots *)
+Theorem C16_sdd_pivots_nonzero : C16_sdd_pivots_nonzero_full.
+Proof. intros A _ H. apply sdd_pivots_nonzero. exact H. Qed.
+Print Assumptions C16_sdd_pivots_nonzero.
+
+(* [G] lu_solve ALWAYS returns a result on strictly diagonally dominant matrices, and it solves the system *)
+Theorem C16_lu_solve_sdd_correct : forall (A b : list (list R)) dim,
+  let n := length A in (0 < n)%nat -> is_square A = true ->
+  (forall i, (i < n)%nat ->
+     (sumr Rops 0 n (fun j => if Nat.eqb j i then 0 else Rabs (get2 Rops A i j)) < Rabs (get2 Rops A i i))%R) ->
+  rect n dim b ->
+  exists X, lu_solve Rops A b = Ok X /\ rect n dim X /\
+    forall i c, (i < n)%nat -> (c < dim)%nat -> sumr Rops 0 n (fun k => get2 Rops A i k * get2 Rops X k c)%R = get2 Rops b i c.
+Proof. exact lu_solve_sdd_correct. Qed.
+Print Assumptions C16_lu_solve_sdd_correct.
+
+(* [G] ... and that solution is the only one *)
+Theorem C16_lu_solve_sdd_unique : forall (A b : list (list R)) dim (X Y : list (list R)), sdd A ->
+  rect (length A) dim X -> rect (length A) dim Y ->
+  (forall i c, (i < length A)%nat -> (c < dim)%nat -> sumr Rops 0 (length A) (fun k => get2 Rops A i k * get2 Rops X k c)%R = get2 Rops b i c) ->
+  (forall i c, (i < length A)%nat -> (c < dim)%nat -> sumr Rops 0 (length A) (fun k => get2 Rops A i k * get2 Rops Y k c)%R = get2 Rops b i c) ->
+  X = Y.
+Proof. exact lu_solve_sdd_unique. Qed.
+Print Assumptions C16_lu_solve_sdd_unique.
+
+(* [G] determinant = Leibniz formula for EVERY size and every pivoting pattern, given non-zero pivots *)
+Theorem C16_determinant_is_leibniz_given_pivots : C16_determinant_is_leibniz_given_pivots_full.
+Proof. intros m Hsq Hp. apply determinant_leibniz; assumption. Qed.
+Print Assumptions C16_determinant_is_leibniz_given_pivots.
+
+(* [G] every size: a non-zero value returned by matrix_determinant is the Leibniz determinant *)
+Theorem C16_determinant_nonzero_result : forall (m : list (list R)) d, is_square m = true ->
+  matrix_determinant Rops m = Ok d -> d <> 0%R -> d = leibniz (length m) m.
+Proof. exact determinant_nonzero_result. Qed.
+Print Assumptions C16_determinant_nonzero_result.
+
+(* [G] strictly diagonally dominant matrices are non-singular: Leibniz determinant = product of the pivots <> 0 *)
+Theorem C16_sdd_nonsingular : forall A : list (list R), sdd A ->
+  leibniz (length A) A = prodf (fun i => get2 Rops (snd (doolittle Rops A)) i i) (length A) /\ leibniz (length A) A <> 0%R.
+Proof. exact sdd_leibniz_nonzero. Qed.
+Print Assumptions C16_sdd_nonsingular.
+
+(* non-vacuity: a 3 x 3 strictly diagonally dominant matrix with entries of both signs *)
+Example C16_sdd_satisfiable : sdd [[4; 1; -2]; [1; -5; 3]; [0; 2; 3]]%R /\ is_square [[4; 1; -2]; [1; -5; 3]; [0; 2; 3]]%R = true.
+Proof.
+  split; [|reflexivity]. intros i Hi. cbn [length] in *.
+  assert (C : (i = 0 \/ i = 1 \/ i = 2)%nat) by lia.
+  destruct C as [-> | [-> | ->]]; unfold sumr, get2; cbn [seq map sumT nth Nat.eqb]; cbn [oadd o0 Rops];
+    repeat match goal with |- context [Rabs ?x] => let H := fresh in
+      first [assert (H : Rabs x = x) by (apply Rabs_right; lra) | assert (H : Rabs x = (- x)%R) by (apply Rabs_left; lra)]; rewrite H; clear H end; lra.
+Qed.
+
+
+(* [G] the EXECUTABLE rational instance: lu_solve always returns a result on strictly diagonally dominant matrices *)
+Theorem C16_lu_solve_sdd_correct_Q : forall (A b : list (list Q)) dim,
+  let n := length A in (0 < n)%nat -> is_square A = true ->
+  (forall i, (i < n)%nat ->
+     (sumr Qops 0 n (fun j => if Nat.eqb j i then 0 else Qabs.Qabs (get2 Qops A i j)) < Qabs.Qabs (get2 Qops A i i))%Q) ->
+  rectQ n dim b ->
+  exists X, lu_solve Qops A b = Ok X /\
+    forall i c, (i < n)%nat -> (c < dim)%nat ->
+      (sumr Qops 0 n (fun k => omul Qops (get2 Qops A i k) (get2 Qops X k c)) == get2 Qops b i c)%Q.
+Proof. exact lu_solve_sdd_correct_Q. Qed.
+Print Assumptions C16_lu_solve_sdd_correct_Q.
